@@ -170,7 +170,16 @@ def mutate(r, o, prof=HOSTILE, ops=None, rate=0.35):
             ops.append("insert")
         if o and r.random() < 0.3:
             k = r.choice(list(o))
-            nk = k + r.choice(prof.alpha) if r.random() < 0.7 else gkey(r, prof)
+            x = r.random()
+            if x < 0.35 and len(k) >= 2:
+                i = r.randrange(len(k))       # same-length rename: one character substituted
+                nk = k[:i] + r.choice([c for c in prof.alpha + "xyz" if c != k[i]]) + k[i + 1:]
+            elif x < 0.8:
+                nk = k + r.choice(prof.alpha)
+            else:
+                nk = gkey(r, prof)
+            if nk in o:
+                nk = k + "_"
             v = o.pop(k)
             o[nk] = v
             ops.append("rename-key")
